@@ -1,3 +1,7 @@
 import Audit.Tool
 import Adb.Props.C13
+import Adb.Props.C13Store
+import Adb.Props.Base64
 #audit_module Adb.Props.C13
+#audit_module Adb.Props.C13Store
+#audit_module Adb.Props.Base64
